@@ -18,6 +18,8 @@ use std::cell::{Cell, UnsafeCell};
 use std::sync::atomic::{AtomicBool, AtomicUsize, Ordering};
 
 pub const GUARD: usize = 64;
+/// Bytes after the block: large, so that an overrun is recorded instead of corrupting the heap.
+pub const REAR_GUARD: usize = 4096;
 const GUARD_BYTE: u8 = 0xFD;
 const FREED_BYTE: u8 = 0xDD;
 /// Requests above this size are refused (null): only a broken layout computation asks for them.
@@ -202,7 +204,7 @@ unsafe fn tracked_alloc(l: Layout) -> *mut u8 {
     let raw_align = (2 * align).max(16);
     let two = 2 * align;
     let k = if align >= GUARD { align } else { align + two * ((GUARD - align + two - 1) / two) };
-    let raw_size = k + size + GUARD;
+    let raw_size = k + size + REAR_GUARD;
     let raw = unsafe { System.alloc(Layout::from_size_align(raw_size, raw_align).unwrap()) };
     if raw.is_null() {
         return raw;
